@@ -35,6 +35,43 @@ CLAIMED = {
         "Trusted: as C06; contest identity is string equality as in pandas.get_dummies.",
         "DESIGN.md section 5 C07",
     ),
+    "C01": (
+        "Lean 4 theorems about a relational model of the three-way split and of the aggregate tables (induction over rows; group-sum algebra) + API-level differential correspondence on generated elections",
+        "split_ids_nodup / split_covers_feed / split_covers_base_zero / split_ids_known / votes_preserved prove that every unit is reported "
+        "exactly once with its own votes (under FeedConsistent); counted_conserved / group_exists_iff prove that the counted and reporting "
+        "columns of every aggregate row are sums over exactly the attributable units, for every group structure. The model is run on every "
+        "generated election next to ModelClient.get_estimates and all unit categories, counted votes and aggregate tables are compared exactly.",
+        "Trusted: Lean kernel + standard axioms; pandas idioms modelled as relational algebra (validated by the diff); key derivation for "
+        "unexpected units done by the harness as the code does. Known findings KF-1, KF-4 (known_findings.json).",
+        "DESIGN.md section 5 C01",
+    ),
+    "C02": (
+        "Lean 4 theorems (group-sum algebra: val_groupSum, val_addTables, sorted_ext) + API-level correspondence recomputing every aggregate table from the unit table",
+        "agg_pred_is_sum / np_bounds_are_sums / agg_row_exists_iff / agg_keys_sorted / interval_rows_aligned_np / sumAt_parent (levels agree) / "
+        "boot_turnout_is_sum / boot_margin_is_ratio hold for every list of units and every key assignment. Every aggregate table returned by "
+        "the client is recomputed by the Lean model from the returned unit table and compared exactly; bootstrap identities are evaluated "
+        "on full runs (their stage-level diff is part of the C06 check).",
+        "Trusted: as C01; PostalFixedWidth for the bootstrap alignment.",
+        "DESIGN.md section 5 C02",
+    ),
+    "C03": (
+        "Lean 4 theorems about rounding (round-half-even commutes with an integer floor) and monotone group sums + API-level monitors and correspondence",
+        "rhe_max_int / unit_floor_pred / unit_floor_lower / unit_floor_upper / final_rows / agg_floor_pred / agg_floor_np / agg_floor_gauss / "
+        "no_nonreporting_zero_width hold for arbitrary rational regression outputs and corrections. Floors, whole-numberness, finality of "
+        "reported rows and zero-width intervals are evaluated on every unit and aggregate row of generated runs (partial counts above the "
+        "modelled value forced on 30% of partial units).",
+        "Trusted: as C01; solver answers finite; gaussian scale > 0.",
+        "DESIGN.md section 5 C03",
+    ),
+    "C09": (
+        "Lean 4 theorems (decision function `category` characterised by iff-statements and first-reason lemmas) + API-level correspondence incl. an outlier-model stream with the flagged sets recorded as oracle",
+        "fit_iff / predicted_iff / reason_* / nonreporting_not_filtered / mem_rep_iff / mem_nonrep_iff and the derived-quantity lemmas "
+        "(zero denominators give 0) characterise exactly which units are fitted, predicted or passed through and with which reason. "
+        "Every unit's frame and category in generated runs (thresholds and limits exactly at generated values, overlapping reasons, both "
+        "policies, custom limits, outlier models switched on independently) is compared with the model.",
+        "Trusted: as C01; the regression inside the outlier models is an oracle (flagged ids recorded and replayed); isclose(.,0) modelled as = 0.",
+        "DESIGN.md section 5 C09",
+    ),
 }
 
 PENDING_REASON = "check not built yet in this session (model and correspondence in progress); not claimed until it is"
